@@ -303,7 +303,10 @@ impl<T: TransportParticipantFactory> DomainParticipantFactoryAsync<T> {
                     .min(time_until_stale_participant.unwrap_or(poke_time))
                     .min(time_until_stale_writer_sample.unwrap_or(poke_time))
                     .min(time_until_pending_writer_sample_timeout.unwrap_or(poke_time))
-                    .min(time_until_participant_announcement.unwrap_or(poke_time));
+                    .min(time_until_participant_announcement.unwrap_or(poke_time))
+                    // an item that is already overdue yields a negative value; the conversion
+                    // to core::time::Duration casts `sec as u64`, i.e. a sleep of ~1.8e19 s
+                    .max(Duration::new(0, 0));
 
                 match select_future(
                     dcps_receiver.receive(),
